@@ -28,9 +28,16 @@ Definition arity_ok (x : node) : bool :=
 Definition cutalways_zero (x : node) : bool :=
   match nkind x with KCutoff CAlways => value x =? 0 | _ => true end.
 
+(* an Always node reads through to an input created before it *)
+Definition always_lt (n : nid) (x : node) : bool :=
+  match nkind x with
+  | KAlways => match decl x with [a] => (a <? n)%nat | _ => false end
+  | _ => true
+  end.
+
 Definition bf_node (s : state) (n : nid) (x : node) : bool :=
   (n <? next s)%nat && negb (isBindKind (nkind x)) && bool_decide (scope x = None) && valid x
-  && arity_ok x && cutalways_zero x.
+  && arity_ok x && cutalways_zero x && always_lt n x.
 
 Definition BF (s : state) : Prop :=
   binds s = ∅ /\ forall n x, nodes s !! n = Some x -> bf_node s n x = true.
@@ -75,6 +82,9 @@ Record ValInv (s : state) : Prop := {
   vi_bf : BF s;
   (* V4: stamps; every stamp is from an earlier pass *)
   vi_stamps : forall n, stamps_node s true n = true;
+  (* V0: a node outside the graph has never-computed stamps (zeroNode resets them) *)
+  vi_unreg : forall n, inGraph (nd s n) = false ->
+                       recomputedAt (nd s n) = 0 /\ changedAt (nd s n) = 0;
   (* V1: owed => queued (an Always node is always stale) *)
   vi_owed : forall n, inGraph (nd s n) = true -> isStale s n = true -> inHeap s n = true;
   (* V2: not queued, no input changed since the last recompute => locally consistent *)
@@ -89,7 +99,9 @@ Definition vi_codes (s : state) : list nat :=
   code (forallb (stamps_node s true) (allNodes s)) 21 ++
   code (forallb (fun n => negb (inGraph (nd s n)) || negb (isStale s n) || inHeap s n) (allNodes s)) 22 ++
   code (forallb (fun n => negb (inGraph (nd s n)) || inHeap s n || negb (guarded s None n)
-                          || node_consistent s n) (allNodes s)) 23.
+                          || node_consistent s n) (allNodes s)) 23 ++
+  code (forallb (fun n => inGraph (nd s n) ||
+                          ((recomputedAt (nd s n) =? 0) && (changedAt (nd s n) =? 0))) (allNodes s)) 24.
 
 Definition valinv_b (s : state) : bool := (1 <=? stabNum s) && bool_decide (vi_codes s = []).
 
